@@ -12,7 +12,8 @@ RULE = ("one case = one run with a callback recording every iterate; families co
         "trial values) / finite-resolution objective, n 1..8, all boxes and starts, maxls 1..20, maxfun 1..60 (so the evaluation budget can "
         "run out inside a line search) or ample, maxcor 1..10, gradient callable (80%) or finite differences. Oracle: the objective recomputed "
         "by the harness at x0, at every callback iterate and at result.x is non-increasing, exactly. Non-trivial = run with >=1 line search "
-        "that ended without satisfying its conditions (returned None or used its whole evaluation cap); distinct = distinct specs")
+        "that ended without satisfying its conditions (returned None or used its whole evaluation cap), or a restart leg; distinct = distinct specs. "
+        "A second kind restarts from a returned result with a gradient scaler (over an unscaled, or an already scaled, checkpoint) and judges the restarted leg.")
 ASSUMPTIONS = ["harness objective closures are pure, so re-evaluation reproduces the values the solver saw",
                "runs whose start value is not finite are skipped and counted"]
 FAMS = gen.ALL_FAMILIES + ("exp_wall", "badly_scaled", "rosenbrock", "oscillating", "quantized", "quantized")
@@ -20,7 +21,7 @@ FAMS = gen.ALL_FAMILIES + ("exp_wall", "badly_scaled", "rosenbrock", "oscillatin
 
 def floors(tier):
     return {"runs": 800, "sequence_points": 4000, "line_searches": 3000, "line_searches_without_convergence": 300,
-            "runs_budget_inside_search": 50, "__nontrivial__": 200}
+            "runs_budget_inside_search": 50, "restart_runs": 60, "__nontrivial__": 200}
 
 
 def cases(tier, seed):
@@ -41,12 +42,48 @@ def cases(tier, seed):
             "cb": "never",
         }
         yield {"problem": ps, "cfg": cfg}
+    # restarts combined with a gradient scaler (the checkpoint documentation names "some scaling must be performed before
+    # starting L-BFGS-B" as a use of restarts)
+    nres = 300 if tier == "quick" else 8000
+    for i in range(nres):
+        ps = gen.rand_spec(rng, ("qp", "rosenbrock", "rastrigin", "styblinski_tang", "qp_quartic", "beale"), nmax=6)
+        cfg = {"jac": "callable", "maxcor": int(rng.integers(1, 8)), "maxls": int(gen.pick(rng, [2, 5, 20])), "maxiter": int(rng.integers(1, 5)),
+               "maxfun": 15000, "ftol": 0.0, "gtol": 1e-9, "cb": "never"}
+        yield {"problem": ps, "cfg": cfg, "restart": {"scenario": "scaler_over_unscaled_checkpoint" if i % 3 else "scaler_over_scaled_checkpoint",
+                                                     "s": float(np.exp(rng.uniform(np.log(1e-2), np.log(1e2)))), "extra": int(rng.integers(1, 5))}}
+
+
+def run_restart(spec, out):
+    P = gen.make_problem(spec["problem"])
+    cfg = dict(spec["cfg"])
+    rs = spec["restart"]
+    first_cfg = dict(cfg, scaler=rs["s"]) if rs["scenario"] == "scaler_over_scaled_checkpoint" else cfg
+    a = probes.run_min(P, first_cfg)
+    out.count("restart_runs")
+    if a.exc is not None:
+        out.count("runs_raised")
+        return
+    b = probes.run_min(P, dict(cfg, maxiter=int(a.result.nit) + rs["extra"], scaler=rs["s"]), checkpoint=a.result, x0=np.array(a.result.x, dtype=float, copy=True))
+    if b.exc is not None:
+        out.count("runs_raised")
+        return
+    # the restarted leg starts at the checkpoint's x
+    P2 = gen.make_problem(spec["problem"])
+    P2.x0 = np.array(a.result.x, dtype=float, copy=True)
+    out.count("restart_runs:" + rs["scenario"])
+    e2e.mon_monotone(out, P2, b, dict(family=P.spec["family"], mode="callable", scenario=rs["scenario"]))
+    out.nontrivial = True
+    out.key = f"restart/{P.spec['family']}/{P.spec['seed']}/{rs['scenario']}"
+    out.sample = dict(spec=spec)
 
 
 def run(spec):
     import lbfgsb.main as M
 
     out = Outcome()
+    if spec.get("restart"):
+        run_restart(spec, out)
+        return out
     P = gen.make_problem(spec["problem"])
     cfg = dict(spec["cfg"])
     if P.spec["family"] == "exp_wall":
